@@ -128,8 +128,31 @@ func rangeSet(e *Eco, r *RNG, p *Pool, n int) ([]string, []any) {
 	for _, s := range corpusRanges(e.Name) {
 		add(s)
 	}
+	// range literals of the repository's own tests (a seed-dependent sample of them)
+	_, hr := harvestedFor(e)
+	for k, i := range r.Perm(len(hr)) {
+		if k >= 1+n/5 {
+			break
+		}
+		add(hr[i])
+	}
+	var cands []string
 	for i := 0; i < 8*n && len(texts) < n; i++ {
-		add(genRange(r, e.Name, p))
+		s := genRange(r, e.Name, p)
+		cands = append(cands, s)
+		add(s)
+		switch {
+		case i%16 == 7 && len(cands) > 2:
+			// crossover of two range texts, or of a range text and a harvested one
+			b := cands[r.Intn(len(cands))]
+			if len(hr) > 0 && r.Chance(50) {
+				b = hr[r.Intn(len(hr))]
+			}
+			add(splice(r, s, b))
+		case i%16 == 11:
+			// a long conjunction / disjunction: many comparators in one text (length limits)
+			add(longRange(r, e.Name, p))
+		}
 	}
 	return texts, vals
 }
